@@ -547,6 +547,9 @@ impl Clone for %s {
         txt = self.r24_take_while_map(txt)
         txt = self.r26_btree_next_after(txt)
         txt = self.r28_keys_map(txt)
+        # R32: `X.extend(S.iter().copied())` -> `vshim::extend_copied(&mut X, S)` (Extend::extend is generic over IntoIterator; Copied<Iter> has no vstd model)
+        txt, k32 = re.subn(r'\b((?:self\s*\.\s*)?[a-z_][a-z0-9_]*)\.extend\(\s*([a-z_][a-z0-9_]*)\.iter\(\)\.copied\(\)\s*\)', r'crate::vshim::extend_copied(&mut \1, \2)', txt)
+        self.rules.hit('R32', k32)
         # R29: `std::fs::read_dir(` -> `crate::vshim::read_dir(` (ReadDir is a foreign iterator type: stand-in DirIter)
         txt, k29 = re.subn(r'\b(?:std::)?fs::read_dir\(', 'crate::vshim::read_dir(', txt)
         self.rules.hit('R29', k29)
@@ -1154,6 +1157,17 @@ impl Clone for %s {
             # file handle) is still alive at the statement matched by <at> (Rust scoping: its block is still open and it has not been moved)
             for (init_re, at_re, oid, tags) in c.nohandle:
                 ok, why = check_nohandle(txt[b_lo:b_hi], init_re, at_re)
+                self.syntactic.append(dict(oid=oid, tags=tags, addr=addr, ok=ok, why=why, src_file=rel, src_line=src_line))
+            # ordering condition (@order): statement A occurs (once) before statement B (once) in the body -- e.g. the in-memory queue
+            # (which owns the file handles) is updated before the GC pass looks at the reference counts
+            for (a_re, b_re, oid, tags) in c.order:
+                body_txt = re.sub(r'//[^\n]*', lambda m: ' ' * len(m.group(0)), txt[b_lo:b_hi])
+                ma, mb = list(re.finditer(a_re, body_txt)), list(re.finditer(b_re, body_txt))
+                if len(ma) != 1 or len(mb) != 1:
+                    ok, why = False, '/%s/ occurs %d times, /%s/ occurs %d times' % (a_re, len(ma), b_re, len(mb))
+                else:
+                    ok = ma[0].start() < mb[0].start()
+                    why = '' if ok else '/%s/ no longer precedes /%s/' % (a_re, b_re)
                 self.syntactic.append(dict(oid=oid, tags=tags, addr=addr, ok=ok, why=why, src_file=rel, src_line=src_line))
             # the named call must be made unconditionally: exactly once, in the top-level block of the body
             for (call_re, oid, tags) in c.mustcall:
